@@ -1,7 +1,7 @@
 (* The code-shape parameters of the models, instantiated from the facts gosrc2v regenerates from
    the Go source on every run. *)
 From Coq Require Import List NArith ZArith Bool.
-From GP Require Import Generated Model.Handshake.
+From GP Require Import Generated Model.Handshake Model.Stderr.
 
 Definition gen_hs_params : hs_params :=
   {| hp_core := core_protocol_version;
@@ -9,3 +9,9 @@ Definition gen_hs_params : hs_params :=
      hp_cert_len := cert_field_min_len;
      hp_checks_addr_err := start_checks_addr_error;
      hp_guards_nil_tls := load_cert_guards_nil_tls |}.
+
+Definition gen_sd_params : sd_params :=
+  {| sp_checked_assertions := Nat.eqb parsejson_unchecked_assertions 0;
+     sp_prefixes := stderr_text_prefixes;
+     sp_drains_after_scan_stop := start_drains_stdout_after_scanner;
+     sp_default_buf := default_log_buffer |}.
